@@ -39,6 +39,9 @@ def programs(tier):
     # the custom contract: all four bridged/native mixes + interfaces fixed to the chain types
     cust_ifs = tuple(ifs) + (iface("M", "M", 9), iface("M", "E", 10), iface("E", "M", 11))
     out.append(("pcust0", Contract(methods=own, interfaces=cust_ifs, custom="msg=MyMsg, query=MyQuery", entry_points=""), {"custom"}))
+    # the flags of `: custom(..)` in the other order
+    rev_ifs = tuple(Interface(**{**i.__dict__, "messages_custom": "custom(query, msg)"}) if i.messages_custom == "custom(msg, query)" else i for i in ifs)
+    out.append(("pcust1", Contract(methods=own, interfaces=rev_ifs, custom="msg=MyMsg, query=MyQuery", entry_points=""), {"custom"}))
     # native twin: same Empty/associated interfaces on a contract without custom types (no `: custom(..)` needed)
     nat_ifs = tuple(Interface(**{**i.__dict__, "messages_custom": None}) for i in ifs)
     out.append(("pnat0", Contract(methods=own, interfaces=nat_ifs, entry_points=""), {"native"}))
